@@ -173,6 +173,7 @@ type c07Out struct {
 	errText  string
 	panicked string
 	hung     bool
+	emptyDB  string // a DBLINK entry that was read with an empty (or all-blank) value
 }
 
 func c07Dump(seq gts.Sequence) string {
@@ -203,6 +204,13 @@ func c07Scan(data []byte, mode string, cut int) c07Out {
 				out.recs = append(out.recs, c07Dump(seq))
 				out.lens = append(out.lens, gts.Len(seq))
 				out.nres = append(out.nres, len(seq.Bytes()))
+				if f, ok := seq.Info().(seqio.GenBankFields); ok {
+					for _, p := range f.DBLink {
+						if strings.TrimSpace(p.Value) == "" && out.emptyDB == "" {
+							out.emptyDB = fmt.Sprintf("record %d: %q=%q", len(out.recs)-1, p.Key, p.Value)
+						}
+					}
+				}
 				if len(out.recs) > 10000 {
 					panic("more than 10000 records from one input")
 				}
@@ -352,6 +360,35 @@ func c07Mutate(seed []byte, c c07Case) ([]byte, bool) {
 		}
 		return nil, false
 	found:
+		_ = 0
+	case "dblinkval":
+		// A-th "db: id" line of a DBLINK field (the field line or one of its continuation lines): the id replaced by
+		// nothing (B=0: the line ends at the colon) or by blanks only (B=1: one blank, 2: three blanks, 3: blank and tab)
+		ls := lineSpans(data)
+		k, in := -1, false
+		for _, l := range ls {
+			line := data[l[0]:l[1]]
+			if bytes.HasPrefix(line, []byte("DBLINK ")) {
+				in = true
+			} else if !bytes.HasPrefix(line, []byte("            ")) {
+				in = false
+			}
+			i := bytes.IndexByte(line, ':')
+			if !in || i < 0 {
+				continue
+			}
+			k++
+			if k != c.A {
+				continue
+			}
+			eol := line[len(bytes.TrimRight(line, "\r\n")):]
+			nl := append(append([]byte{}, line[:i+1]...), []string{"", " ", "   ", " \t"}[c.B%4]...)
+			nl = append(nl, eol...)
+			data = append(append(append([]byte(nil), data[:l[0]]...), nl...), data[l[1]:]...)
+			goto dbfound
+		}
+		return nil, false
+	dbfound:
 		_ = 0
 	case "keywiden":
 		// k-th feature key line: key lengthened by B characters; A2 (c.RA) = 1 keeps the location column by removing blanks
@@ -523,6 +560,10 @@ func c07Eval(c c07Case) (ok bool, sig, detail string) {
 		if out.lens[i] != out.nres[i] {
 			return false, "len-vs-residues", what + fmt.Sprintf(": record %d reports Len()=%d but delivers %d residues", i, out.lens[i], out.nres[i])
 		}
+	}
+	// an empty DBLINK value is never read as a value (whatever else becomes of the record)
+	if out.emptyDB != "" {
+		return false, "empty-dblink-value-read", what + ": a DBLINK entry with no value was read as a cross reference: " + out.emptyDB
 	}
 	// environment answers must not matter
 	if mode != "full" {
@@ -760,6 +801,19 @@ func init() {
 					}
 					for _, w := range []int{1, 2, 5} {
 						eval(c07Case{Kind: "scan", Seed: name, Mut: "widen", A: i, B: w}, 200000+i)
+					}
+				}
+				for i := 0; i < bytes.Count(seed, []byte(":")); i++ {
+					c := c07Case{Kind: "scan", Seed: name, Mut: "dblinkval", A: i}
+					if _, ok := c07Mutate(seed, c); !ok {
+						break
+					}
+					for b := 0; b < 4; b++ {
+						c.B = b
+						eval(c, 200500+i)
+						c2 := c
+						c2.CRLF = true
+						eval(c2, 200500+i)
 					}
 				}
 				nk := 0
